@@ -5,8 +5,8 @@ All theorems are about the Model functions the driver executes (OFV/Model/C16.le
 (OFV/Spec/Basic.lean) that give the reductions their meaning.
 
 Not proved here (see OPEN_STATEMENTS in harness/c16.py): the operator-level statements
-(spectrum of the tapered operator; that bravyi_kitaev_tree output meets the hypothesis of
-scbk_sector_sound): Spec oracle only.
+(the tapered operator for stabilizers whose fixed positions carry X or Y; that bravyi_kitaev_tree
+output meets the hypothesis of scbk_sector_sound): Spec oracle only.
 -/
 import OFV.Proofs.C16
 import OFV.Proofs.C16Pauli
@@ -16,6 +16,7 @@ import OFV.Proofs.C16Embed
 import OFV.Proofs.C16Freeze
 import OFV.Proofs.C16Prune
 import OFV.Proofs.C16Scbk
+import OFV.Proofs.C16Taper
 
 namespace OFV.C16
 open OFV OFV.Spec OFV.Model OFV.Model.C16 OFV.C16P OFV.Generated
@@ -452,6 +453,79 @@ live tolerance: the flag is `true` and the result is `-1 + 1/2 + X_0 X_1` -/
 example : scbkExact eqTolerance [([(3, 3)], 1), ([(1, 3), (3, 3)], ⟨1/2, 0⟩), ([(0, 1), (2, 1)], 1)] 4 1 = true ∧
     scbkReduce eqTolerance [([(3, 3)], 1), ([(1, 3), (3, 3)], ⟨1/2, 0⟩), ([(0, 1), (2, 1)], 1)] 4 1
       = [([], ⟨-1/2, 0⟩), ([(0, 1), (1, 1)], 1)] := by
+  decide +kernel
+
+/-- **`qbit_order`** in closed form: for sorted distinct removed positions below `n`, entry `p < n` is
+`'remove'` when `p` is removed and `p - #{removed < p}` otherwise. -/
+theorem taper_qbit_order (n : Nat) (rm : List Nat) (hs : rm.Pairwise (· < ·)) (hb : ∀ r ∈ rm, r < n) (p : Nat)
+    (hp : p < n) : (qbitOrder n rm)[p]? = some (if p ∈ rm then none else some (shiftDown rm p)) :=
+  qbitOrder_get n rm hs hb p hp
+
+/-- **`taper_off_qubits_invariant_subspace`** (the spectrum statement).  Let `ham` be the reduced operator
+and `rm` the fixed positions returned by `reduce_number_of_terms` inside `taper_off_qubits`, `n` the
+register size the code computes, `rmS` the sorted removed positions, and suppose `ham` consists of
+Pauli strings on distinct qubits below `n` that carry on the removed qubits only `I`, `X`, or — on
+removed qubits where the register `m` holds `0` — `Z` (with `m = 0`: the flag `taperHypX` the driver
+reports says that every removed qubit is of one kind, `I/X` when the fixed Pauli of its stabilizer is
+`Z`, `I/Z` when it is `X` or `Y`), the removed positions are distinct and below `n`, and the exactness
+flag of the run is `true`.  Write `|s; m⟩` for the basis state with the kept qubits in `s` (in
+increasing order) and the removed qubits in `m`
+(`Spec.C16.embed kept [] s ⊕ Spec.C16.embed removed [] m`).  Then for all `s, t`:
+`Σ_{m'} ⟨t; m'| ham |s; m⟩ = ⟨t| tapered |s⟩`.
+When every removed qubit is of one kind this says `ham (|s⟩ ⊗ |χ⟩) = (tapered |s⟩) ⊗ |χ⟩` with `|χ⟩` the
+product of `|+⟩` on the `I/X` qubits and `|0⟩` on the `I/Z` qubits: the tapered operator is the
+restriction of the reduced operator to an invariant subspace, so its spectrum is contained in that of
+`ham` (which agrees with the input on the code space: `reduce_terms_agrees_on_codespace`). -/
+theorem taper_off_qubits_invariant_subspace (tol : Rat) (operator : Model.Op) (stabs : List Model.Op)
+    (manual : Bool) (fixed : Option (List Nat)) (ham out : Model.Op) (rm rmS : List Nat) (stale stale' ex : Bool)
+    (hred : reduceNumberOfTerms tol operator stabs false manual fixed = .ok (ham, rm, stale, ex))
+    (h : taperOffQubits tol operator stabs manual fixed = .ok (out, rmS, stale', true))
+    (hnd : rm.Nodup)
+    (hb : ∀ r ∈ rm, r < max (countQubits operator) (stabs.foldl (fun m s => max m (countQubits s)) 0))
+    (m : Nat)
+    (hA : ∀ e ∈ ham, Pauli123 e.1 ∧
+      (∀ f ∈ e.1, f.1 < max (countQubits operator) (stabs.foldl (fun m s => max m (countQubits s)) 0)) ∧
+      e.1.Pairwise (fun a b => a.1 ≠ b.1) ∧
+      ∀ f ∈ e.1, f.1 ∈ rmS → f.2 = 1 ∨ (f.2 = 3 ∧ m.testBit (indexOf rmS f.1) = false))
+    (s t : Nat) (hm : m < 2 ^ rm.length)
+    (hs : s < 2 ^ (max (countQubits operator) (stabs.foldl (fun m s => max m (countQubits s)) 0) - rm.length))
+    (ht : t < 2 ^ (max (countQubits operator) (stabs.foldl (fun m s => max m (countQubits s)) 0) - rm.length)) :
+    ((List.range (2 ^ rm.length)).map fun m' =>
+        GV.coeff (applyOp .qubit ham
+          [Spec.C16.embed (keptList (max (countQubits operator)
+              (stabs.foldl (fun m s => max m (countQubits s)) 0)) rmS) [] s ^^^ Spec.C16.embed rmS [] m])
+          [Spec.C16.embed (keptList (max (countQubits operator)
+              (stabs.foldl (fun m s => max m (countQubits s)) 0)) rmS) [] t ^^^ Spec.C16.embed rmS [] m']).sum
+      = GV.coeff (applyOp .qubit out [s]) [t] := by
+  unfold taperOffQubits at h
+  simp only [hred, bind, Except.bind] at h
+  obtain ⟨g1, g2⟩ := insertSort_spec rm hnd
+  cases hst : taperStrip tol (max (countQubits operator) (stabs.foldl (fun m s => max m (countQubits s)) 0)) ham
+      (rm.foldr insertSorted []) with
+  | error e => simp [hst] at h
+  | ok o =>
+    simp only [hst, Except.ok.injEq, Prod.mk.injEq, Bool.and_eq_true] at h
+    obtain ⟨h1, h2, _, _, h5⟩ := h
+    subst h2
+    have hlen : (rm.foldr insertSorted []).length = rm.length := by
+      have p1 : (rm.foldr insertSorted []).Perm rm :=
+        (List.perm_ext_iff_of_nodup (pairwise_lt_nodup _ g1) hnd).mpr g2
+      exact p1.length_eq
+    have ho : o = (out, true) := Prod.ext h1 h5
+    rw [ho] at hst
+    have := taperStrip_den tol _ ham (rm.foldr insertSorted []) out g1 (fun r hr => hb r ((g2 r).mp hr)) m
+      hA hst s t (by rw [hlen]; exact hm) (by rw [hlen]; exact hs) (by rw [hlen]; exact ht)
+    rw [hlen] at this
+    exact this
+
+/-- non-vacuity: `X_0 X_1 + 1/2 Z_0 Z_1... ` tapered with the stabilizer `Z_0 Z_1`: qubit 0 is removed,
+the reduced operator carries only `I`/`X` there, flag `true` -/
+example : taperHypX eqTolerance [([(0, 1), (1, 1)], 1), ([(0, 3), (1, 3)], ⟨1/2, 0⟩), ([(1, 3)], 2)]
+      [[([(0, 3), (1, 3)], 1)]] false none = true ∧
+    (match taperOffQubits eqTolerance [([(0, 1), (1, 1)], 1), ([(0, 3), (1, 3)], ⟨1/2, 0⟩), ([(1, 3)], 2)]
+        [[([(0, 3), (1, 3)], 1)]] false none with
+      | .ok r => (r.2.1, r.2.2.2)
+      | .error _ => ([], false)) = ([0], true) := by
   decide +kernel
 
 end OFV.C16
